@@ -188,43 +188,54 @@ def list_properties(igb, object_bits=12, checks=True):
 CONTRACT_LEVEL = re.compile(r'postcondition|loop_invariant|precondition|assertion|loop_decreases|loop_step|loop_assigns')
 
 
-def split_run(igb, solvers, timeout, workers=6, object_bits=12, extra=(), log=None):
-    """every contract-level property on its own (first solver to answer wins), all other (support) properties
-    in one run.  Returns (props: list of dicts like cbmc's result entries + solver/secs, notes)."""
-    import concurrent.futures
+def split_run(igb, solvers, timeout, workers=6, object_bits=12, extra=(), log=None, support_timeout=None):
+    """Every contract-level property on its own (first solver to answer wins); the support properties grouped by
+    function, a group that no solver decides is bisected until single properties remain.
+    Returns (props: list of dicts like cbmc's result entries + solver/secs, notes)."""
+    import concurrent.futures, threading as th
     props = list_properties(igb, object_bits)
     notes = []
     if props is None:
         return None, ['could not list properties']
     hard = [p for p in props if CONTRACT_LEVEL.search(p['name']) and 'builtin-library' not in p.get('sourceLocation', {}).get('file', '')]
-    rest = [p for p in props if p not in hard]
+    hard_ids = set(id(p) for p in hard)
+    rest = [p for p in props if id(p) not in hard_ids]
+    groups = {}
+    for p in rest:
+        groups.setdefault(p['name'].split('.')[0], []).append(p)
     out = []
+    lock = th.Lock()
+    st = support_timeout or max(60, timeout // 2)
 
-    def one(group, label):
+    def run_group(group, to):
         members = [dict(label=s, igb=igb, solver=s, extra=list(extra) + [x for p in group for x in ('--property', p['name'])]) for s in solvers]
-        rs = portfolio(members, timeout, need_all=False, object_bits=object_bits, kill=False)
-        best = None
+        rs = portfolio(members, to, need_all=False, object_bits=object_bits, kill=False)
         for s, r in rs.items():
             pz = r['parsed']
             if pz is not None and pz['status'] in ('success', 'failure') and 'ignoring' not in ' '.join(pz['messages']):
-                best = (s, r, pz)
-                break
-        return group, best, rs
-    groups = [[p] for p in hard]
-    if rest:
-        groups.append(rest)
-    with concurrent.futures.ThreadPoolExecutor(max_workers=workers) as ex:
-        for group, best, rs in ex.map(lambda g: one(g, ''), groups):
-            if best is None:
+                return (s, r, pz)
+        return None
+
+    ex = concurrent.futures.ThreadPoolExecutor(max_workers=workers)
+    pending = []
+
+    def task(group, to, depth):
+        best = run_group(group, to)
+        if best is None:
+            if len(group) > 1 and depth < 12:
+                h = len(group) // 2
+                with lock:
+                    pending.append(ex.submit(task, group[:h], to, depth + 1))
+                    pending.append(ex.submit(task, group[h:], to, depth + 1))
+                return
+            with lock:
                 for p in group:
-                    out.append(dict(property=p['name'], description=p.get('description', ''), sourceLocation=p.get('sourceLocation', {}), status='UNKNOWN', solver='', secs=timeout))
-                if len(group) == 1:
-                    notes.append('%s: no solver answered within %ds' % (group[0]['name'], timeout))
-                else:
-                    notes.append('support group (%d properties): no solver answered within %ds' % (len(group), timeout))
-                continue
-            s, r, pz = best
-            got = dict((x['property'], x) for x in pz['props'])
+                    out.append(dict(property=p['name'], description=p.get('description', ''), sourceLocation=p.get('sourceLocation', {}), status='UNKNOWN', solver='', secs=to))
+                notes.append('%s: no solver answered within %ds' % (group[0]['name'] if len(group) == 1 else '%d support properties' % len(group), to))
+            return
+        s, r, pz = best
+        got = dict((x['property'], x) for x in pz['props'])
+        with lock:
             for p in group:
                 x = got.get(p['name'])
                 if x is None:
@@ -234,4 +245,19 @@ def split_run(igb, solvers, timeout, workers=6, object_bits=12, extra=(), log=No
                     x['solver'] = s
                     x['secs'] = r['secs']
                     out.append(x)
+
+    with lock:
+        for p in hard:
+            pending.append(ex.submit(task, [p], timeout, 99))
+        for name, g in sorted(groups.items()):
+            pending.append(ex.submit(task, g, st, 0))
+    while True:
+        with lock:
+            cur = list(pending)
+        for f in cur:
+            f.result()
+        with lock:
+            if len(pending) == len(cur):
+                break
+    ex.shutdown()
     return out, notes
